@@ -318,10 +318,30 @@ func C05(c *Ctx) {
 			c.R.Check(ok, "C05-R5", key, c.pos(st), "Limited only on the exhausted-counter edge", "Limited is reported elsewhere than at the exhausted step counter")
 		case 3: // BreakpointReached
 			ok := false
-			for _, f := range flow.FactsAt(st.Block()) {
-				if cl, isC := f.Cond.(*ssa.Call); isC && f.True && cl.Common().StaticCallee() == nil && !cl.Common().IsInvoke() {
-					if ssau.TypeIs(cl.Common().Value.Type(), prog.Abs("core"), "Breakpoint") {
-						ok = true
+			isVerdict := func(b *ssa.BasicBlock) bool {
+				for _, f := range flow.FactsAt(b) {
+					if cl, isC := f.Cond.(*ssa.Call); isC && f.True && cl.Common().StaticCallee() == nil && !cl.Common().IsInvoke() {
+						if ssau.TypeIs(cl.Common().Value.Type(), prog.Abs("core"), "Breakpoint") {
+							return true
+						}
+					}
+				}
+				return false
+			}
+			ok = isVerdict(st.Block())
+			if !ok {
+				// the scan may live in a helper that returns true only under a breakpoint's verdict
+				for _, cl := range factCallTrue(st.Block()) {
+					h := cl.Common().StaticCallee()
+					if h == nil || prog.PkgOf(h) != "core" {
+						continue
+					}
+					for ri := 0; ri < h.Signature.Results().Len(); ri++ {
+						if bt, isB := h.Signature.Results().At(ri).Type().Underlying().(*types.Basic); isB && bt.Kind() == types.Bool {
+							if trueImplies(h, ri, isVerdict) {
+								ok = true
+							}
+						}
 					}
 				}
 			}
